@@ -70,7 +70,7 @@ void run_roundtrip(const char *input) {
     h_env_init(&e, cmds, 5000, 8, 64);
     SCPI_Input(&e.ctx, "Q?\n", 3);
     n = e.out_len;
-    while (n && (e.out[n - 1] == '\n' || e.out[n - 1] == '\r')) n--;          /* response data without the terminator */
+    if (n && e.out[n - 1] == '\n') n--; if (n && e.out[n - 1] == '\r') n--;                                        /* response data without the (one) message terminator */
     printf("%s => ", input); h_hex(stdout, e.out, n);
     msg = (char *) malloc(n + 4); memcpy(msg, "S ", 2); memcpy(msg + 2, e.out, n); msg[n + 2] = '\n';
     h_env_clear_capture(&e);
